@@ -44,18 +44,33 @@ for (n, m, multi, tier) in ((12, 3, False, 'quick'), (12, 3, True, 'quick'), (4,
 inst(P, 'c16_sparse_extend_n12_m3', SB('c16::sparse_extend(%d, %d, %d)', 12, 3, False), unwind=10, stubs=SPARSE, cap=900, mem=10,
      desc='SparseBuilder Extend<usize> == repeated set, 3 symbolic positions', shape={'universe': 12, 'capacity': 3}).unwindset = LazySB(12, 3, False)
 
-RLSTUBS = ['nofmt', 'rawvec_fixed', 'rawvec_reserve', 'vec_push', 'vec_resize', 'simple_sds::rl_vector::index::SampleIndex::parameters => stubs::sample_index_parameters']
+RLSTUBS = ['nofmt', 'rawvec_fixed', 'rawvec_reserve', 'vec_push', 'vec_resize', 'simple_sds::rl_vector::index::SampleIndex::new => stubs::sample_index_new_contract']
 RLUW = {r'RLBuilder::encode$': 24, r'RLVector::decode$': 24, r'c16::RlModel::': 6, r'c16::rl_builder$': 6, r'RLVector::block_for': 6,
         r'SampleIndex::new': 6, r'IntVector as simple_sds::ops::Resize>::resize': 66, r'RLVector as simple_sds::ops::': 8, r'rl_vector::(OneIter|ZeroIter|Iter|RunIter)': 8,
         r'RLVector as std::convert::From<simple_sds::rl_vector::RLBuilder>>::from': 6, r'Vec::<u64>::extend_with$': 18}
+def rluw(bound):
+    d = dict(RLUW)
+    if bound == '7':
+        d.update({r'RLBuilder::encode$': 2, r'RLVector::decode$': 3, r'IntVector as simple_sds::ops::Resize>::resize': 2})
+    elif bound == '1 << 20':
+        d.update({r'RLBuilder::encode$': 8, r'RLVector::decode$': 9, r'IntVector as simple_sds::ops::Resize>::resize': 2})
+    return d
+
+
 for (steps, bound, conv, tier) in ((1, 'usize::MAX', False, 'quick'), (2, 'usize::MAX', False, 'quick'), (3, 'usize::MAX', False, 'thorough'),
-                                   (2, '1 << 20', True, 'quick'), (3, '1 << 20', True, 'thorough'), (2, 'usize::MAX', True, 'thorough')):
-    inst(P, 'c16_rl_steps%d_%s_%s' % (steps, 'any' if bound == 'usize::MAX' else 'small', 'convert' if conv else 'observe'),
-         'c16::rl_builder(%d, %s, %s)' % (steps, bound, 'true' if conv else 'false'), tier=tier, unwind=10, unwindset=RLUW, stubs=RLSTUBS,
+                                   (2, '7', True, 'quick'), (3, '7', True, 'quick'), (2, '1 << 20', True, 'thorough'), (3, '1 << 20', True, 'thorough'), (2, 'usize::MAX', True, 'thorough')):
+    inst(P, 'c16_rl_steps%d_%s_%s' % (steps, {'usize::MAX': 'any', '7': 'tiny', '1 << 20': 'small'}[bound], 'convert' if conv else 'observe'),
+         'c16::rl_builder(%d, %s, %s)' % (steps, bound, 'true' if conv else 'false'), tier=tier, unwind=10, unwindset=rluw(bound), stubs=RLSTUBS,
          cap=1500, cap_thorough=5400, mem=16, weight=50 * steps,
          role='rl builder',
-         desc='RLBuilder: %d arbitrary calls (try_set(start,len) / set_len(n), arguments %s), observables after each call%s' % (steps, 'over all usize' if bound == 'usize::MAX' else 'below 2^20', ', then RLVector::from and rank/select against the accepted runs' if conv else ''),
+         desc='RLBuilder: %d arbitrary calls (try_set(start,len) / set_len(n), arguments %s), observables after each call%s' % (steps, 'over all usize' if bound == 'usize::MAX' else 'at most ' + bound, ', then RLVector::from and the run iterator against the accepted (merged) runs' if conv else ''),
          shape={'steps': steps, 'bound': bound, 'convert': conv})
+
+for kinds in ('LT', 'TL', 'TT', 'TLT', 'LTT', 'TTT'):
+    inst(P, 'c16_rl_seq_%s_tiny_convert' % kinds, 'c16::rl_builder_kinds(%d, 7, true, &[%s])' % (len(kinds), ', '.join('true' if c == 'T' else 'false' for c in kinds)),
+         tier='quick' if len(kinds) == 2 else 'thorough', unwind=10, unwindset=rluw('7'), stubs=RLSTUBS, cap=1500, cap_thorough=5400, mem=16, weight=100, role='rl builder',
+         desc='RLBuilder call sequence %s (T = try_set(start,len), L = set_len(n); arguments symbolic <= 7), then RLVector::from: run iterator yields exactly the accepted merged runs' % kinds,
+         shape={'sequence': kinds, 'bound': 7})
 
 extra(P, assumptions=['SparseBuilder: low width from the real parameter rule (computed natively), embedded bitvector answered by specification stubs',
                       'RLBuilder: error messages (format!) stubbed to empty strings; allocation stubs (fixed 1024-bit buffers, no-grow push); SampleIndex::parameters closed form',
